@@ -99,11 +99,14 @@ check("C05",
       "DeleteRemovesExactlyIncident, MovesExactlySelected, FailedIsNoOp.  Every (state, action) pair reached within the time "
       "budget is replayed on a real Molecule and a real Structure; after each call the identity-keyed observation (atom "
       "order, per-atom coordinate and charge tokens, array shapes and dtype, bond endpoints, parent/idx/get_atom_index) "
-      "must equal the model's.",
-      "small molecules only (bounds in the evidence); self-bonds/parallel bonds not generated; coordinates of library-placed "
+      "must equal the model's.  Direction B: seeded random edit histories of length 40 on file-loaded and cloned molecules "
+      "(dendrobine, benzene, dmf, ...; Molecule and Structure; extra atoms adopted, deleted atoms re-added as the same object, "
+      "hydrogens added, substituents removed, a substructure translated) are validated event by event by TLC against the same "
+      "actions (MolEditTrace).",
+      "small molecules only in direction A (bounds in the evidence); self-bonds/parallel bonds not generated; coordinates of library-placed "
       "hydrogens are not compared; quick tier covers the pair set within a time budget (seeded order)",
       "TLA+ spec (MolEdit) model-checked with TLC; spec->code replay of the transitions with identity-keyed projection",
-      "DESIGN.md 4/C05", modules=("MolEdit", "MCMolEdit"))
+      "DESIGN.md 4/C05", modules=("MolEdit", "MCMolEdit", "MolEditTrace"))
 
 check("C06",
       "TLC exhausts MolHeap.tla (objects of the seven structure classes, copy routes construct / pickle / deepcopy / upcast / "
